@@ -229,11 +229,31 @@ class Run:
     def leftover(self):
         """script shells of this run still alive (not zombie-reaped children of init are reported as well)"""
         out = []
+        seen = set()
         for k, t, pid in self.trace():
             if k == 'start':
                 st = proc_state(int(pid))
                 if st is not None:
                     out.append((t, int(pid), st))
+                    seen.add(int(pid))
+        # ... and whatever else is left of zinoma's session (zinoma is started as a session leader; scripts and services are
+        # its descendants): a shell that was spawned but had not written its start line yet is found this way
+        try:
+            for d in os.listdir('/proc'):
+                if d.isdigit() and int(d) != self.proc.pid and int(d) not in seen:
+                    try:
+                        st = open('/proc/%s/stat' % d).read()
+                        f = st[st.rindex(')') + 2:].split()
+                        if int(f[3]) == self.proc.pid:
+                            try:
+                                cmd = open('/proc/%s/cmdline' % d).read().replace('\0', ' ')[:60]
+                            except OSError:
+                                cmd = ''
+                            out.append(('?(%s)' % cmd.strip(), int(d), f[0]))
+                    except (OSError, ValueError, IndexError):
+                        pass
+        except OSError:
+            pass
         return out
 
 
